@@ -60,7 +60,7 @@ def deductive(check, tier):
     verify(MEMO.str_memo, tier, check)
 
 
-TEXTS = ["x", "", "a b", "line1\nline2", "tab\there", "Ｅ wide", "é", "\r\x07"]
+TEXTS = ["x", "", "a b", "line1\nline2", "tab\there", "Ｅ wide", "é", "\r\x07", "caf\udce9", "\ufeffab", "x\ud83d\ude00y", "\x00z"]
 
 
 def run_case(runs, derive=False):
